@@ -332,4 +332,449 @@ Proof.
     rewrite <- (krel_is_k ARROW _ _ eq_refl Ha). destruct (is_k ARROW a); [discriminate|reflexivity].
 Qed.
 
+
+(* ---------------------------------------------------------------------------------------------- *)
+(* small facts about ptoks *)
+
+Definition alike (r1 r2 : list token) : Prop := Forall2 krel r1 r2.
+
+Lemma alike_app a b c d : alike a b -> alike c d -> alike (a ++ c) (b ++ d).
+Proof. apply Forall2_app. Qed.
+
+Lemma alike_length a b : alike a b -> length a = length b.
+Proof. induction 1; cbn [length]; congruence. Qed.
+
+Lemma ptoks_nonempty e : ptoks e <> [].
+Proof.
+  destruct e; cbn [ptoks]; try discriminate;
+    try (intros H; apply app_eq_nil in H; destruct H as [_ H]; discriminate).
+Qed.
+
+Lemma ptoks_list_nonempty es : es <> [] -> ptoks_list es <> [].
+Proof.
+  destruct es as [|e es]; [congruence|]. intros _. destruct es.
+  - apply ptoks_nonempty.
+  - cbn [ptoks_list]. intros H. apply app_eq_nil in H. destruct H as [H _]. exact (ptoks_nonempty e H).
+Qed.
+
+Lemma text_value_quote v : valid_codepoints v -> text_value (quote printable v) = Some v.
+Proof. intros H. unfold text_value. rewrite unquote_quote by assumption. reflexivity. Qed.
+
+Lemma all_digits_no_dot l : all_digits l = true -> existsb (N.eqb 46) l = false.
+Proof.
+  unfold all_digits. intros H. apply andb_prop in H. destruct H as [H _].
+  induction l as [|c l IH]; [reflexivity|]. cbn [forallb existsb] in *. apply andb_prop in H. destruct H as [H1 H2].
+  rewrite (IH H2), orb_false_r. unfold is_digit in H1. lia.
+Qed.
+
+(* a literal token and the token the printer writes for the literal it denotes *)
+Lemma lit_case t l : lit_of (tk t) = Some l -> tokok t ->
+  exists tl, ptoks (mk_lit l t) = [tl] /\ krel t tl /\ tokgood tl /\ prefix_of (tk tl) = None /\ lit_of (tk tl) = Some l
+             /\ mk_lit l tl = norm (mk_lit l t).
+Proof.
+  intros Hl (Hi & Hn & Hv). pose proof (lit_kinds _ _ Hl) as Hk. destruct l.
+  - (* text *)
+    set (v := match text_value (tx t) with Some v => v | None => [] end) in *.
+    exists (tokc TEXT (quote printable v)). specialize (Hv Hk).
+    repeat split; try reflexivity.
+    + left. exact Hk.
+    + intros _. exists v. apply text_value_quote. exact Hv.
+    + unfold mk_lit. cbn [tx tokc]. rewrite (text_value_quote v Hv). reflexivity.
+  - (* number *)
+    exists (num_tok (num_render (tx t))). repeat split; try reflexivity.
+    + right. split.
+      * destruct Hk as [-> | ->]; reflexivity.
+      * unfold num_tok. cbn [tk tokc]. destruct (existsb _ _); reflexivity.
+    + intros H. exfalso. unfold num_tok in H. cbn [tk tokc] in H. destruct (existsb _ _); discriminate.
+    + unfold num_tok. cbn [tk tokc]. destruct (existsb _ _); reflexivity.
+    + unfold num_tok. cbn [tk tokc]. destruct (existsb _ _); reflexivity.
+  - exists (tokc TRUE [116; 114; 117; 101]). repeat split; try reflexivity; [left; exact Hk|intros H; discriminate].
+  - exists (tokc FALSE [102; 97; 108; 115; 101]). repeat split; try reflexivity; [left; exact Hk|intros H; discriminate].
+  - exists (tokc NULL [110; 117; 108; 108]). repeat split; try reflexivity; [left; exact Hk|intros H; discriminate].
+Qed.
+
+(* ---------------------------------------------------------------------------------------------- *)
+(* the statements, by fuel *)
+
+Definition S_expr (fuel : nat) : Prop := forall p ts t1 r1,
+  Forall tokok ts -> p_expr fuel p ts = PR (t1, r1) ->
+  exists consumed, ts = consumed ++ r1 /\ alike consumed (ptoks t1) /\ Forall tokgood (ptoks t1) /\
+    forall r2, alike r1 r2 -> p_expr fuel p (ptoks t1 ++ r2) = PR (norm t1, r2).
+
+Definition S_primary (fuel : nat) : Prop := forall ts t1 r1,
+  Forall tokok ts -> p_primary fuel ts = PR (t1, r1) ->
+  exists consumed, ts = consumed ++ r1 /\ alike consumed (ptoks t1) /\ Forall tokgood (ptoks t1) /\
+    forall r2, alike r1 r2 -> p_primary fuel (ptoks t1 ++ r2) = PR (norm t1, r2).
+
+Definition S_atom (fuel : nat) : Prop := forall ts t1 r1,
+  Forall tokok ts -> p_atom fuel ts = PR (t1, r1) ->
+  (exists t r h tl, ts = t :: r /\ ptoks t1 = h :: tl /\ tk h = tk t) /\
+  exists consumed, ts = consumed ++ r1 /\ alike consumed (ptoks t1) /\ Forall tokgood (ptoks t1) /\
+    forall r2, alike r1 r2 -> p_atom fuel (ptoks t1 ++ r2) = PR (norm t1, r2).
+
+Definition S_binloop (fuel : nat) : Prop := forall p lhs ts t1 r1,
+  Forall tokok ts -> p_binloop fuel p lhs ts = PR (t1, r1) ->
+  exists consumed suffix, ts = consumed ++ r1 /\ ptoks t1 = ptoks lhs ++ suffix /\ alike consumed suffix
+    /\ Forall tokgood suffix /\
+    forall r2, alike r1 r2 -> p_binloop fuel p (norm lhs) (suffix ++ r2) = PR (norm t1, r2).
+
+Definition S_postfix (fuel : nat) : Prop := forall a ts t1 r1,
+  Forall tokok ts -> p_postfix fuel a ts = PR (t1, r1) ->
+  exists consumed suffix, ts = consumed ++ r1 /\ ptoks t1 = ptoks a ++ suffix /\ alike consumed suffix
+    /\ Forall tokgood suffix /\
+    forall r2, alike r1 r2 -> p_postfix fuel (norm a) (suffix ++ r2) = PR (norm t1, r2).
+
+Definition S_params (fuel : nat) : Prop := forall ts es r1,
+  Forall tokok ts -> p_params fuel ts = PR (es, r1) ->
+  es <> [] /\
+  exists consumed, ts = consumed ++ r1 /\ alike consumed (ptoks_list es) /\ Forall tokgood (ptoks_list es) /\
+    forall r2, alike r1 r2 -> p_params fuel (ptoks_list es ++ r2) = PR (map norm es, r2).
+
+Lemma tokok_tail a b : Forall tokok (a ++ b) -> Forall tokok b.
+Proof. intros H. apply Forall_app in H. tauto. Qed.
+
+(* p_expr *)
+Lemma step_expr f : S_primary f -> S_binloop f -> S_expr (S f).
+Proof.
+  intros HP HB p ts t1 r1 Hok H. rewrite p_expr_eq in H.
+  destruct (p_primary f ts) as [[e r]| |] eqn:E1; try discriminate.
+  destruct (HP _ _ _ Hok E1) as (c1 & -> & A1 & G1 & K1).
+  destruct (HB _ _ _ _ _ (tokok_tail _ _ Hok) H) as (c2 & suf & -> & Ep & A2 & G2 & K2).
+  exists (c1 ++ c2). split; [rewrite app_assoc; reflexivity|]. rewrite Ep.
+  split; [apply alike_app; assumption|]. split; [apply Forall_app; split; assumption|].
+  intros r2 A. rewrite p_expr_eq, <- app_assoc.
+  rewrite (K1 (suf ++ r2)) by (apply alike_app; assumption). apply K2. exact A.
+Qed.
+
+(* p_binloop *)
+Lemma step_binloop f : S_expr f -> S_binloop f -> S_binloop (S f).
+Proof.
+  intros HE HB p lhs ts t1 r1 Hok H. rewrite p_binloop_eq in H.
+  assert (Hexit : PR (lhs, ts) = PR (t1, r1) ->
+            (forall t r, ts = t :: r -> match binop_of (tk t) with Some (prec, _) => Nat.leb p prec = false | None => True end) ->
+            exists consumed suffix, ts = consumed ++ r1 /\ ptoks t1 = ptoks lhs ++ suffix /\ alike consumed suffix
+              /\ Forall tokgood suffix /\
+              forall r2, alike r1 r2 -> p_binloop (S f) p (norm lhs) (suffix ++ r2) = PR (norm t1, r2)).
+  { intros E Hx. inversion E; subst. exists [], []. rewrite app_nil_r.
+    split; [reflexivity|]. split; [reflexivity|]. split; [constructor|]. split; [constructor|].
+    intros r2 A. cbn [app]. rewrite p_binloop_eq. destruct A as [|t t2 r r2' Ht A]; [reflexivity|].
+    specialize (Hx t r eq_refl). rewrite <- (krel_binop _ _ Ht).
+    destruct (binop_of (tk t)) as [[prec l]|]; [rewrite Hx|]; reflexivity. }
+  destruct ts as [|t r]; [apply Hexit; [exact H|intros; discriminate]|].
+  destruct (binop_of (tk t)) as [[prec l]|] eqn:EB.
+  2:{ apply Hexit; [exact H|]. intros t' r' E; inversion E; subst. rewrite EB. exact I. }
+  destruct (Nat.leb p prec) eqn:EL.
+  2:{ apply Hexit; [exact H|]. intros t' r' E; inversion E; subst. rewrite EB. exact EL. }
+  destruct (p_expr f (S prec) r) as [[rhs r']| |] eqn:E1; try discriminate.
+  assert (Hokr : Forall tokok r) by (inversion Hok; assumption).
+  destruct (HE _ _ _ _ Hokr E1) as (c1 & -> & A1 & G1 & K1).
+  destruct (HB _ _ _ _ _ (tokok_tail _ _ Hokr) H) as (c2 & suf & -> & Ep & A2 & G2 & K2).
+  destruct (binop_rt _ _ _ EB) as (B1 & B2 & B3).
+  set (o := mk_bin l (tk t)) in *.
+  exists (t :: c1 ++ c2), (op_tok o :: ptoks rhs ++ suf).
+  split; [cbn [app]; rewrite app_assoc; reflexivity|].
+  split; [rewrite Ep; cbn [ptoks]; rewrite <- !app_assoc; reflexivity|].
+  split.
+  { constructor; [left; symmetry; exact B3|]. apply alike_app; assumption. }
+  split.
+  { constructor; [intros Ht; exfalso; rewrite B3 in Ht; rewrite Ht in EB; discriminate|].
+    apply Forall_app; split; assumption. }
+  intros r2 A. cbn [app]. rewrite p_binloop_eq. change (tk (op_tok o)) with (op_kind o).
+  rewrite B1, EL, <- app_assoc.
+  rewrite (K1 (suf ++ r2)) by (apply alike_app; assumption).
+  rewrite B2. apply (K2 r2 A).
+Qed.
+
+
+(* p_primary *)
+Lemma step_primary f : S_expr f -> S_atom f -> S_primary (S f).
+Proof.
+  intros HE HA ts t1 r1 Hok H. rewrite p_primary_eq in H.
+  destruct ts as [|t r]; [discriminate|].
+  assert (Hokr : Forall tokok r) by (inversion Hok; assumption).
+  assert (Hokt : tokok t) by (inversion Hok; assumption).
+  destruct (prefix_of (tk t)) as [prec|] eqn:EP.
+  { (* negation *)
+    destruct (p_expr f prec r) as [[e r']| |] eqn:E1; try discriminate. inversion H; subst.
+    destruct (HE _ _ _ _ Hokr E1) as (c1 & -> & A1 & G1 & K1).
+    pose proof (kinds_prefix _ _ EP) as Hk.
+    exists (t :: c1). split; [reflexivity|]. cbn [ptoks].
+    split; [constructor; [left; exact Hk|exact A1]|].
+    split; [constructor; [intros Ht; discriminate|exact G1]|].
+    intros r2 A. cbn [app]. rewrite p_primary_eq. change (tk MINUSt) with MINUS. rewrite <- Hk, EP.
+    rewrite (K1 r2 A). reflexivity. }
+  destruct (lit_of (tk t)) as [l|] eqn:EL.
+  { (* literal *)
+    inversion H; subst. destruct (lit_case t l EL Hokt) as (tl & E1 & A1 & G1 & P1 & L1 & M1).
+    exists [t]. split; [reflexivity|]. rewrite E1.
+    split; [constructor; [exact A1|constructor]|]. split; [constructor; [exact G1|constructor]|].
+    intros r2 A. cbn [app]. rewrite p_primary_eq, P1, L1, M1. reflexivity. }
+  (* anonymous function or atom *)
+  assert (Hatom : p_atom f (t :: r) = PR (t1, r1) ->
+            (is_k LPAREN t = true -> anon_head r = None \/ anon_prec = None) ->
+            exists consumed, t :: r = consumed ++ r1 /\ alike consumed (ptoks t1) /\ Forall tokgood (ptoks t1) /\
+              forall r2, alike r1 r2 -> p_primary (S f) (ptoks t1 ++ r2) = PR (norm t1, r2)).
+  { intros E1 Hno. destruct (HA _ _ _ Hok E1) as ((t' & r' & h & tl & Ets & Eh & Hh) & c1 & Ec & A1 & G1 & K1).
+    inversion Ets; subst t' r'.
+    exists c1. split; [exact Ec|]. split; [exact A1|]. split; [exact G1|].
+    intros r2 A. rewrite p_primary_eq. rewrite Eh. cbn [app]. rewrite Hh, EP, EL.
+    assert (Hlp : is_k LPAREN h = is_k LPAREN t) by (unfold is_k; rewrite Hh; reflexivity).
+    rewrite Hlp.
+    assert (Hsel : match (if is_k LPAREN t then anon_head (tl ++ r2) else None), anon_prec with
+                   | Some (names, r'), Some prec =>
+                       match p_expr f prec r' with
+                       | PR (body, r'') => PR (EAnon names body, r'')
+                       | PErr => PErr
+                       | PFuel => PFuel
+                       end
+                   | _, _ => p_atom f (h :: tl ++ r2)
+                   end = p_atom f (h :: tl ++ r2)).
+    { destruct (is_k LPAREN t) eqn:ELP; [|reflexivity].
+      destruct (Hno eq_refl) as [Hn|Hn].
+      - (* the rest of the second stream is kind-wise like r *)
+        assert (Hal : alike r (tl ++ r2)).
+        { assert (Hall : alike (t :: r) (h :: tl ++ r2)).
+          { rewrite Ec. change (h :: tl ++ r2) with ((h :: tl) ++ r2). rewrite <- Eh. apply alike_app; assumption. }
+          inversion Hall; assumption. }
+        rewrite (anon_head_krel_none _ _ Hal Hn). reflexivity.
+      - rewrite Hn. destruct (anon_head (tl ++ r2)) as [[? ?]|]; reflexivity. }
+    rewrite Hsel. change (h :: tl ++ r2) with ((h :: tl) ++ r2). rewrite <- Eh. apply K1. exact A. }
+  destruct (is_k LPAREN t) eqn:ELP.
+  2:{ apply Hatom; [|intros; discriminate]. destruct anon_prec; exact H. }
+  destruct (anon_head r) as [[names r']|] eqn:EA.
+  2:{ apply Hatom; [|intros _; left; reflexivity]. destruct anon_prec; exact H. }
+  destruct anon_prec as [prec|] eqn:EAP.
+  2:{ apply Hatom; [exact H|intros _; right; reflexivity]. }
+  (* anonymous function *)
+  destruct (p_expr f prec r') as [[body r'']| |] eqn:E1; try discriminate. inversion H; subst.
+  destruct (anon_head_some _ _ _ EA) as (Hne & hd & -> & AH).
+  destruct (HE _ _ _ _ (tokok_tail _ _ Hokr) E1) as (c1 & -> & A1 & G1 & K1).
+  apply is_k_eq in ELP.
+  exists (t :: hd ++ c1). split; [cbn [app]; rewrite <- app_assoc; reflexivity|]. cbn [ptoks].
+  split.
+  { cbn [app]. constructor; [left; exact ELP|].
+    replace (names_toks names ++ RP :: ARROWt :: ptoks body) with ((names_toks names ++ [RP; ARROWt]) ++ ptoks body)
+      by (rewrite <- app_assoc; reflexivity).
+    apply alike_app; assumption. }
+  split.
+  { cbn [app]. constructor; [intros Ht; discriminate|]. apply Forall_app. split.
+    - clear. induction names as [|n [|n2 rr] IH]; [constructor| |]; cbn [names_toks].
+      + constructor; [intros Ht; discriminate|constructor].
+      + constructor; [intros Ht; discriminate|]. constructor; [intros Ht; discriminate|]. exact IH.
+    - constructor; [intros Ht; discriminate|]. constructor; [intros Ht; discriminate|]. exact G1. }
+  intros r2 A. cbn [app]. rewrite p_primary_eq. change (tk LP) with LPAREN.
+  change (prefix_of LPAREN) with (@None nat). change (lit_of LPAREN) with (@None llabel). cbv iota.
+  change (is_k LPAREN LP) with true. cbv iota.
+  rewrite <- !app_assoc. cbn [app]. rewrite (anon_head_names names _ Hne), EAP.
+  rewrite (K1 r2 A). reflexivity.
+Qed.
+
+
+(* p_atom *)
+Lemma step_atom f : S_expr f -> S_postfix f -> S_atom (S f).
+Proof.
+  intros HE HPo ts t1 r1 Hok H. rewrite p_atom_eq in H.
+  destruct ts as [|t r]; [discriminate|].
+  assert (Hokr : Forall tokok r) by (inversion Hok; assumption).
+  destruct (is_k LPAREN t) eqn:ELP.
+  { apply is_k_eq in ELP.
+    destruct (p_expr f 0 r) as [[e [|c r']]| |] eqn:E1; try discriminate.
+    destruct (is_k RPAREN c) eqn:ERP; [|discriminate]. apply is_k_eq in ERP.
+    destruct (HE _ _ _ _ Hokr E1) as (c1 & -> & A1 & G1 & K1).
+    assert (Hok' : Forall tokok r').
+    { apply tokok_tail in Hokr. inversion Hokr; assumption. }
+    destruct (HPo _ _ _ _ Hok' H) as (c2 & suf & -> & Ep & A2 & G2 & K2).
+    cbn [ptoks] in Ep. split.
+    { exists t, (c1 ++ c :: c2 ++ r1), LP, (ptoks e ++ [RP] ++ suf). split; [reflexivity|]. split; [|symmetry; exact ELP].
+      rewrite Ep. cbn [app]. rewrite <- app_assoc. reflexivity. }
+    exists (t :: c1 ++ c :: c2). split; [cbn [app]; rewrite <- app_assoc; reflexivity|].
+    rewrite Ep.
+    split.
+    { cbn [app]. constructor; [left; exact ELP|]. rewrite <- app_assoc. apply alike_app; [exact A1|].
+      cbn [app]. constructor; [left; exact ERP|exact A2]. }
+    split.
+    { cbn [app]. constructor; [intros Ht; discriminate|]. rewrite <- app_assoc. apply Forall_app. split; [exact G1|].
+      cbn [app]. constructor; [intros Ht; discriminate|exact G2]. }
+    intros r2 A. cbn [app]. rewrite p_atom_eq. change (is_k LPAREN LP) with true. cbv iota.
+    rewrite <- !app_assoc. cbn [app].
+    rewrite (K1 (RP :: suf ++ r2)).
+    2:{ constructor; [left; exact ERP|]. apply alike_app; assumption. }
+    change (is_k RPAREN RP) with true. cbv iota. apply (K2 r2 A). }
+  destruct (is_k NAME t) eqn:EN; [|discriminate]. apply is_k_eq in EN.
+  destruct (HPo _ _ _ _ Hokr H) as (c2 & suf & -> & Ep & A2 & G2 & K2).
+  cbn [ptoks] in Ep. split.
+  { exists t, (c2 ++ r1), (tokc NAME (map lower (tx t))), suf. split; [reflexivity|]. split; [exact Ep|symmetry; exact EN]. }
+  exists (t :: c2). split; [reflexivity|]. rewrite Ep.
+  split; [cbn [app]; constructor; [left; exact EN|exact A2]|].
+  split; [cbn [app]; constructor; [intros Ht; discriminate|exact G2]|].
+  intros r2 A. cbn [app]. rewrite p_atom_eq.
+  change (is_k LPAREN (tokc NAME (map lower (tx t)))) with false.
+  change (is_k NAME (tokc NAME (map lower (tx t)))) with true. cbv iota.
+  apply (K2 r2 A).
+Qed.
+
+(* p_params *)
+Lemma step_params f : S_expr f -> S_params f -> S_params (S f).
+Proof.
+  intros HE HPa ts es r1 Hok H. rewrite p_params_eq in H.
+  destruct (p_expr f 0 ts) as [[e [|c r]]| |] eqn:E1; try discriminate.
+  - (* last parameter, end of input *)
+    inversion H; subst. destruct (HE _ _ _ _ Hok E1) as (c1 & -> & A1 & G1 & K1).
+    split; [discriminate|]. exists c1. cbn [ptoks_list]. split; [reflexivity|]. split; [exact A1|]. split; [exact G1|].
+    intros r2 A. rewrite p_params_eq, (K1 r2 A). inversion A; subst. reflexivity.
+  - destruct (HE _ _ _ _ Hok E1) as (c1 & -> & A1 & G1 & K1).
+    destruct (is_k COMMA c) eqn:EC.
+    + apply is_k_eq in EC.
+      destruct (p_params f r) as [[es' r']| |] eqn:E2; try discriminate. inversion H; subst.
+      assert (Hokr : Forall tokok r).
+      { apply tokok_tail in Hok. inversion Hok; assumption. }
+      destruct (HPa _ _ _ Hokr E2) as (Hne & c2 & -> & A2 & G2 & K2).
+      split; [discriminate|]. exists (c1 ++ c :: c2). split; [rewrite <- app_assoc; reflexivity|].
+      rewrite (ptoks_list_cons _ _ Hne).
+      split; [apply alike_app; [exact A1|constructor; [left; exact EC|exact A2]]|].
+      split; [apply Forall_app; split; [exact G1|constructor; [intros Ht; discriminate|exact G2]]|].
+      intros r2 A. rewrite p_params_eq, <- app_assoc. cbn [app].
+      rewrite (K1 (COMMAt :: ptoks_list es' ++ r2)).
+      2:{ constructor; [left; exact EC|]. apply alike_app; assumption. }
+      change (is_k COMMA COMMAt) with true. cbv iota. rewrite (K2 r2 A). reflexivity.
+    + inversion H; subst. split; [discriminate|]. exists c1. cbn [ptoks_list].
+      split; [reflexivity|]. split; [exact A1|]. split; [exact G1|].
+      intros r2 A. rewrite p_params_eq, (K1 r2 A). inversion A as [|? c2 ? r2' Hc A']; subst.
+      rewrite <- (krel_is_k COMMA _ _ eq_refl Hc), EC. reflexivity.
+Qed.
+
+
+(* p_postfix *)
+Lemma step_postfix f : S_expr f -> S_postfix f -> S_params f -> S_postfix (S f).
+Proof.
+  intros HE HPo HPa a ts t1 r1 Hok H. rewrite p_postfix_eq in H.
+  assert (Hexit : PR (a, ts) = PR (t1, r1) ->
+            (forall t r, ts = t :: r -> is_k LPAREN t = false /\ is_k DOT t = false /\ is_k LBRACK t = false) ->
+            exists consumed suffix, ts = consumed ++ r1 /\ ptoks t1 = ptoks a ++ suffix /\ alike consumed suffix
+              /\ Forall tokgood suffix /\
+              forall r2, alike r1 r2 -> p_postfix (S f) (norm a) (suffix ++ r2) = PR (norm t1, r2)).
+  { intros E Hx. inversion E; subst. exists [], []. rewrite app_nil_r.
+    split; [reflexivity|]. split; [reflexivity|]. split; [constructor|]. split; [constructor|].
+    intros r2 A. cbn [app]. rewrite p_postfix_eq. destruct A as [|t t2 r r2' Ht A]; [reflexivity|].
+    destruct (Hx t r eq_refl) as (H1 & H2 & H3).
+    rewrite <- (krel_is_k LPAREN _ _ eq_refl Ht), <- (krel_is_k DOT _ _ eq_refl Ht), <- (krel_is_k LBRACK _ _ eq_refl Ht).
+    rewrite H1, H2, H3. reflexivity. }
+  destruct ts as [|t r]; [apply Hexit; [exact H|intros; discriminate]|].
+  assert (Hokr : Forall tokok r) by (inversion Hok; assumption).
+  destruct (is_k LPAREN t) eqn:ELP.
+  { (* call *)
+    apply is_k_eq in ELP. destruct r as [|c r']; [discriminate|].
+    assert (Hok' : Forall tokok r') by (inversion Hokr; assumption).
+    destruct (is_k RPAREN c) eqn:ERP.
+    - apply is_k_eq in ERP.
+      destruct (HPo _ _ _ _ Hok' H) as (c2 & suf & -> & Ep & A2 & G2 & K2).
+      rewrite ptoks_call in Ep. cbn [ptoks_list app] in Ep.
+      exists (t :: c :: c2), (LP :: RP :: suf). split; [reflexivity|].
+      split; [rewrite Ep, <- app_assoc; reflexivity|].
+      split; [constructor; [left; exact ELP|constructor; [left; exact ERP|exact A2]]|].
+      split; [constructor; [intros Ht; discriminate|constructor; [intros Ht; discriminate|exact G2]]|].
+      intros r2 A. cbn [app]. rewrite p_postfix_eq. change (is_k LPAREN LP) with true. cbv iota.
+      change (is_k RPAREN RP) with true. cbv iota. apply (K2 r2 A).
+    - destruct (p_params f (c :: r')) as [[ps [|c' r'']]| |] eqn:E1; try discriminate.
+      destruct (is_k RPAREN c') eqn:ERP'; [|discriminate]. apply is_k_eq in ERP'.
+      destruct (HPa _ _ _ Hokr E1) as (Hne & c1 & Ec & A1 & G1 & K1).
+      assert (Hok'' : Forall tokok r'').
+      { rewrite Ec in Hokr. apply tokok_tail in Hokr. inversion Hokr; assumption. }
+      destruct (HPo _ _ _ _ Hok'' H) as (c2 & suf & -> & Ep & A2 & G2 & K2).
+      rewrite ptoks_call in Ep.
+      (* the first token of the printed parameters is not a closing parenthesis *)
+      destruct (ptoks_list ps) as [|h2 tl2] eqn:EPL; [exfalso; exact (ptoks_list_nonempty _ Hne EPL)|].
+      assert (Hh2 : is_k RPAREN h2 = false).
+      { destruct c1 as [|x c1']; [inversion A1|]. inversion A1 as [|? ? ? ? Hx A1']; subst.
+        cbn [app] in Ec. inversion Ec; subst x.
+        rewrite <- (krel_is_k RPAREN _ _ eq_refl Hx). exact ERP. }
+      exists (t :: c1 ++ c' :: c2), (LP :: (h2 :: tl2) ++ RP :: suf).
+      split; [cbn [app]; rewrite Ec, <- app_assoc; reflexivity|].
+      split; [rewrite Ep, <- !app_assoc; reflexivity|].
+      split.
+      { constructor; [left; exact ELP|]. apply alike_app; [exact A1|]. constructor; [left; exact ERP'|exact A2]. }
+      split.
+      { constructor; [intros Ht; discriminate|]. apply Forall_app. split; [exact G1|].
+        constructor; [intros Ht; discriminate|exact G2]. }
+      intros r2 A. cbn [app]. rewrite p_postfix_eq. change (is_k LPAREN LP) with true. cbv iota.
+      rewrite Hh2. rewrite <- app_assoc. cbn [app].
+      change (h2 :: tl2 ++ RP :: suf ++ r2) with ((h2 :: tl2) ++ RP :: suf ++ r2).
+      rewrite (K1 (RP :: suf ++ r2)).
+      2:{ constructor; [left; exact ERP'|]. apply alike_app; assumption. }
+      change (is_k RPAREN RP) with true. cbv iota. apply (K2 r2 A). }
+  destruct (is_k DOT t) eqn:ED.
+  { (* dot lookup *)
+    apply is_k_eq in ED. destruct r as [|n r']; [discriminate|].
+    destruct (kind_in (tk n) dot_kinds) eqn:EK; [|discriminate].
+    assert (Hok' : Forall tokok r') by (inversion Hokr; assumption).
+    assert (Hokn : tokok n) by (inversion Hokr; assumption).
+    destruct (HPo _ _ _ _ Hok' H) as (c2 & suf & -> & Ep & A2 & G2 & K2).
+    cbn [ptoks] in Ep.
+    assert (Hlk : tk (lookup_tok (tx n)) = tk n).
+    { destruct Hokn as (Hi & Hn & _). unfold lookup_tok. cbn [tk tokc].
+      destruct (dot_kinds_cases _ EK) as [E|E]; rewrite E.
+      - rewrite (Hn E). reflexivity.
+      - rewrite (Hi E). reflexivity. }
+    exists (t :: n :: c2), (DOTt :: lookup_tok (tx n) :: suf). split; [reflexivity|].
+    split; [rewrite Ep, <- app_assoc; reflexivity|].
+    split; [constructor; [left; exact ED|constructor; [left; symmetry; exact Hlk|exact A2]]|].
+    split.
+    { constructor; [intros Ht; discriminate|]. constructor; [|exact G2].
+      intros Ht. exfalso. rewrite Hlk in Ht. rewrite Ht in EK. discriminate. }
+    intros r2 A. cbn [app]. rewrite p_postfix_eq. change (is_k LPAREN DOTt) with false. change (is_k DOT DOTt) with true.
+    cbv iota. rewrite Hlk, EK. change (tx (lookup_tok (tx n))) with (tx n). apply (K2 r2 A). }
+  destruct (is_k LBRACK t) eqn:ELB.
+  { (* index lookup *)
+    apply is_k_eq in ELB.
+    destruct (p_expr f 0 r) as [[e [|c r']]| |] eqn:E1; try discriminate.
+    destruct (is_k RBRACK c) eqn:ERB; [|discriminate]. apply is_k_eq in ERB.
+    destruct (HE _ _ _ _ Hokr E1) as (c1 & -> & A1 & G1 & K1).
+    assert (Hok' : Forall tokok r').
+    { apply tokok_tail in Hokr. inversion Hokr; assumption. }
+    destruct (HPo _ _ _ _ Hok' H) as (c2 & suf & -> & Ep & A2 & G2 & K2).
+    cbn [ptoks] in Ep.
+    exists (t :: c1 ++ c :: c2), (LB :: ptoks e ++ RB :: suf).
+    split; [cbn [app]; rewrite <- app_assoc; reflexivity|].
+    split; [rewrite Ep, <- !app_assoc; reflexivity|].
+    split.
+    { constructor; [left; exact ELB|]. apply alike_app; [exact A1|]. constructor; [left; exact ERB|exact A2]. }
+    split.
+    { constructor; [intros Ht; discriminate|]. apply Forall_app. split; [exact G1|].
+      constructor; [intros Ht; discriminate|exact G2]. }
+    intros r2 A. cbn [app]. rewrite p_postfix_eq. change (is_k LPAREN LB) with false. change (is_k DOT LB) with false.
+    change (is_k LBRACK LB) with true. cbv iota. rewrite <- app_assoc. cbn [app].
+    rewrite (K1 (RB :: suf ++ r2)).
+    2:{ constructor; [left; exact ERB|]. apply alike_app; assumption. }
+    change (is_k RBRACK RB) with true. cbv iota. apply (K2 r2 A). }
+  apply Hexit; [exact H|]. intros t' r' E; inversion E; subst. auto.
+Qed.
+
+(* all six statements hold for every fuel *)
+Theorem all_fuel : forall fuel,
+  S_expr fuel /\ S_binloop fuel /\ S_primary fuel /\ S_atom fuel /\ S_postfix fuel /\ S_params fuel.
+Proof.
+  induction fuel as [|f (HE & HB & HP & HA & HPo & HPa)].
+  - split; [|split; [|split; [|split; [|split]]]]; red; intros; discriminate.
+  - split; [apply step_expr; assumption|]. split; [apply step_binloop; assumption|].
+    split; [apply step_primary; assumption|]. split; [apply step_atom; assumption|].
+    split; [apply step_postfix; assumption|]. apply step_params; assumption.
+Qed.
+
+(* rule parse: expression EOF *)
+Theorem reparse_tokens ts t : Forall tokok ts -> parse_tokens ts = POk t ->
+  alike ts (ptoks t) /\ parse_tokens (ptoks t) = POk (norm t).
+Proof.
+  intros Hok H. unfold parse_tokens in H.
+  destruct (existsb _ ts); [discriminate|].
+  destruct (p_expr (parse_fuel ts) 0 ts) as [[e [|x r]]| |] eqn:E; try discriminate. inversion H; subst e.
+  destruct (all_fuel (parse_fuel ts)) as (HE & _).
+  destruct (HE _ _ _ _ Hok E) as (c1 & Ec & A1 & G1 & K1). rewrite app_nil_r in Ec. subst c1.
+  split; [exact A1|]. unfold parse_tokens.
+  assert (Hex : existsb (fun t0 => is_k TEXT t0 && match text_value (tx t0) with None => true | Some _ => false end) (ptoks t) = false).
+  { clear - G1. induction G1 as [|x l Hx Hl IH]; [reflexivity|]. cbn [existsb]. rewrite IH, orb_false_r.
+    destruct (is_k TEXT x) eqn:EK; [|reflexivity]. apply is_k_eq in EK. destruct (Hx EK) as [v ->]. reflexivity. }
+  rewrite Hex. unfold parse_fuel in *. rewrite <- (alike_length _ _ A1).
+  specialize (K1 [] ltac:(constructor)). rewrite app_nil_r in K1. rewrite K1. reflexivity.
+Qed.
+
 End Roundtrip.
